@@ -149,7 +149,7 @@ impl LocalContainer {
       None => InjectionKey::new::<T>(),
     };
 
-    let _guard = ResolutionGuard::new(key.clone());
+    let _guard = ResolutionGuard::new(self as *const Self as usize, key.clone());
 
     let provider = self.providers.get(&key)?;
 
